@@ -450,6 +450,10 @@ SIG_SHAPES = [
     (["w1", "w1", "w2"], ["w1", "w3"]),
     ([], ["w1"]),
     (["w1", "w2", "w1", "w1"], ["w2", "w1", "w1"]),
+    # a single term on a wire the other operand mentions twice (x+1)+(y+1) + 1; ... once; ... not at all
+    (["x", "one", "y", "one"], ["one"]),
+    (["x", "one"], ["one"]),
+    (["x", "y"], ["one"]),
 ]
 
 
@@ -460,6 +464,10 @@ class _SigOp(_Backend):
     to the sum / difference / multiple of the operands' coefficients modulo p."""
     module = QAP
     op = None
+
+    @staticmethod
+    def optional_cfg(cfg):
+        return cfg.get("shape", "").startswith("arbitrary sequences")
 
     def configs(self, tier):
         out = [dict(shape="arbitrary sequences of (coefficient, wire) pairs")]
